@@ -8,7 +8,7 @@ import monitors
 
 
 # ------------------------------------------------------------------ rewards
-REWARD_MODES = ["dyadic", "dyadic", "negative", "zero", "const", "few", "alt", "large", "objective", "objective"]
+REWARD_MODES = ["dyadic", "dyadic", "negative", "zero", "const", "few", "alt", "large", "objective", "objective", "zeromax"]
 
 
 def make_reward_fn(rnd, mode, box):
@@ -25,6 +25,8 @@ def make_reward_fn(rnd, mode, box):
             return -rnd.randint(1, 1024) / 1024.0
         if mode == "zero":
             return 0.0
+        if mode == "zeromax":
+            return -rnd.choice([0, 1, 2, 3, 4, 6, 8]) / 8.0      # best value exactly 0.0, the rest negative
         if mode == "const":
             return const
         if mode == "few":
@@ -753,6 +755,10 @@ def gen_algo_case(seed, idx, algo=None, force=None, monitors_on=True, T=None, ho
     drnd = random.Random(f"draw-{seed}-{idx}-{ad.name}")
     qrnd = random.Random(f"query-{seed}-{idx}-{ad.name}")
     reward_fn = make_reward_fn(rrnd, rmode, force.get("reward_box") or box)
+    if force.get("pullback"):
+        _pa, _pb = force["pullback"]
+        _rf = reward_fn
+        reward_fn = lambda t_, pt_: _rf(t_, [(x_ - _pb[j_]) / _pa[j_] for j_, x_ in enumerate(pt_)])
     if force.get("query_rounds") is not None:
         query_rounds = set(force["query_rounds"])
     else:
